@@ -130,8 +130,6 @@ func c17Addressable(name string) bool {
 	return name != "" && !strings.ContainsAny(name, "/<") && name[0] != '>' && name[len(name)-1] != '>'
 }
 
-// a numeric entity that may denote a character >= 128 (outside the model's alphabet)
-var c17BigEnt = regexp.MustCompile(`&#[0-9a-zA-Z]{3,};`)
 var c17IntRe = regexp.MustCompile(`^[+-]?[0-9]+$`)
 
 // independent reading of "the parsed value or the default": decimal integer within the width
@@ -840,7 +838,7 @@ func c17GenDocs(rng *rand.Rand, n int, out *[]c17Case) {
 			ex = nil
 		}
 		kindOf := []string{"doc", "doc-utf8", "doc-attrs", "doc-collide"}[style]
-		sure := style == 0 || style == 3
+		sure := style != 2 // attributes are outside the model's alphabet
 		base := c17Case{Kind: kindOf, Segs: segs1(doc), Sure: sure, MustOk: true, Expect: ex,
 			Class: fmt.Sprintf("%s/depth%d/items%d/ent%d/size%d", kindOf, g.maxDepth, g.maxItems, g.entities, len(doc)/256)}
 		*out = append(*out, base)
@@ -891,6 +889,12 @@ var c17StrictSoup = []string{"<a>", "</a>", "<b>", "</b>", "<a/>", "<a >", "</a\
 	"a", "b", "1", ".", "-", "_", "/", "\"", "'", "x=1", " = ", "v v", "#c"}
 var c17WildSoup = []string{"<", "</", "/>", "<a", "<a ", "<!--", "-->", "<?", "?>", "<![CDATA[", "]]>", "<a b=\"c\">", "<a b='c'/>", "<a b>", "<a b=c>", "<n:a>", "</n:a>", "<:a>", "<a:>", ":", "\x80", "\xff", "é", "\xc3", "&#200;", "&#xD800;", "&#x10FFFF;", "&#x110000;",
 	"<!DOCTYPE a>", "<!", "<?xml version=\"1.0\"?>", "<?xml version=\"2.0\"?>", "<?xml encoding=\"latin1\"?>", "\x00", "xmlns=\"u\"", "<a xmlns=\"u\">", "<a xmlns:n=\"u\">", "=\"", "'"}
+
+// UTF-8 boundaries of the end-of-run check (utf8.DecodeRune's acceptance table, U+FFFE/U+FFFF) and numeric entities
+var c17Utf8Soup = []string{"\x7f", "\x80", "\xbf", "\xc0", "\xc1", "\xc2", "\xdf", "\xe0", "\x9f", "\xa0", "\xe1", "\xec", "\xed", "\xee", "\xef", "\xbe", "\xbd", "\xf0", "\x8f", "\x90", "\xf1", "\xf3", "\xf4", "\xf5", "\xff",
+	"\xc2\x80", "\xdf\xbf", "\xe0\xa0\x80", "\xe0\x9f\xbf", "\xed\x9f\xbf", "\xed\xa0\x80", "\xee\x80\x80", "\xef\xbf\xbd", "\xef\xbf\xbe", "\xef\xbf\xbf", "\xef\xbb\xbf", "\xf0\x90\x80\x80", "\xf0\x8f\xbf\xbf", "\xf4\x8f\xbf\xbf", "\xf4\x90\x80\x80",
+	"é", "日", "\U0001F600", "k=", "=", "\n", " ", "#", "a", "<a>", "</a>", "<b/>", "&amp;",
+	"&#127;", "&#128;", "&#xA9;", "&#2047;", "&#2048;", "&#xD7FF;", "&#xD800;", "&#xDFFF;", "&#xE000;", "&#xFFFD;", "&#xFFFE;", "&#xFFFF;", "&#65536;", "&#x10FFFF;", "&#x110000;", "&#1114111;", "&#1114112;"}
 var c17TextSoup = []string{"k=v", "k", "=", "#", "\n", "\n", " ", "\t", "\r", "\r\n", ";", ">", "]", "]]", "a", "b", "1", ".", "-", "_", "/", "\"", "'", "x=1", " = ", "v v", "#c", "\x7f", "k = v = w", "  ", "==", ">>", "] ]>", "]>"}
 
 func c17Soup(rng *rand.Rand, words []string, extra []string, extraPct int, maxLen int) []byte {
@@ -1009,9 +1013,11 @@ func c17Gen(tier string, rng *rand.Rand) []c17Case {
 		b := c17Soup(rng, c17TextSoup, nil, 0, 30)
 		cs = append(cs, c17Case{Kind: "text-soup", Segs: segs1(b), Sure: true, MustOk: !bytes.Contains(b, []byte("]]>")), Extra: pickPaths(), Class: fmt.Sprintf("text-soup/len%d", len(b)/8)})
 		b = c17Soup(rng, c17StrictSoup, nil, 0, 24)
-		cs = append(cs, c17Case{Kind: "strict-soup", Segs: segs1(b), Sure: !c17BigEnt.Match(b), Extra: pickPaths(), Class: fmt.Sprintf("strict-soup/len%d", len(b)/8)})
+		cs = append(cs, c17Case{Kind: "strict-soup", Segs: segs1(b), Sure: true, Extra: pickPaths(), Class: fmt.Sprintf("strict-soup/len%d", len(b)/8)})
 		b = c17Soup(rng, c17StrictSoup, c17WildSoup, 15, 20)
 		cs = append(cs, c17Case{Kind: "wild-soup", Segs: segs1(b), Sure: false, Extra: pickPaths(), Class: fmt.Sprintf("wild-soup/len%d", len(b)/8)})
+		b = c17Soup(rng, c17Utf8Soup, nil, 0, 12)
+		cs = append(cs, c17Case{Kind: "utf8-soup", Segs: segs1(b), Sure: true, Extra: pickPaths(), Class: fmt.Sprintf("utf8-soup/len%d", len(b)/8)})
 		var sb bytes.Buffer
 		c17Balanced(rng, 0, &sb)
 		cs = append(cs, c17Case{Kind: "balanced-soup", Segs: segs1(sb.Bytes()), Sure: true, MustOk: true, Extra: pickPaths(), Class: fmt.Sprintf("balanced-soup/len%d", sb.Len()/8)})
